@@ -49,7 +49,7 @@ Proof.
   - intros y hy Gy Dy. rewrite Hg in Gy. destruct (sid_eqb s y) eqn:X.
     + apply sid_eqb_eq in X. subst y. inversion Gy; subst hy; cbn.
       rewrite (rp_par_s a a' s h P' Hl Ha'). split; [intros q Hq; apply (HP Dy q Hq)|].
-      intros o Ho. destruct (W_leaf a W s h G Hl) as [Ec _]. rewrite Ec in Ho. destruct Ho.
+      intros o Ho. destruct (W_leaf a W s h G Hl) as [Ec _]. rewrite Ec in Ho. discriminate Ho.
     + apply sid_eqb_neq in X. destruct (I_present c m a I y hy Gy Dy) as [P1 P2].
       rewrite (rp_par_other a a' s h P' Ha' y) by congruence. split.
       * intros q Hq. apply Pres, P1, Hq.
